@@ -56,11 +56,12 @@ impl<'a> PrettyPrinter<'a> {
         &'a self,
         ctx: Context,
         parenthesized: Parenthesized<'a>,
+        can_omit_literal: bool,
     ) -> ArenaDoc<'a> {
         // NOTE: This is a safe cast. The parentheses for patterns are all optional.
         // For safety, we don't remove parentheses around idents. See `paren-in-key.typ`.
         let expr = parenthesized.expr();
-        let can_omit = (expr.is_literal()
+        let can_omit = ((expr.is_literal() && can_omit_literal)
             || matches!(
                 expr.to_untyped().kind(),
                 SyntaxKind::Array
